@@ -53,7 +53,8 @@ func WalkFiles(ctx context.Context, path string, watchPattern *regexp.Regexp, ou
 		if err != nil {
 			return nil
 		}
-		if info.IsDir() && skipdir.ShouldSkip(absPath) {
+		// The directory the walk starts from is the one the user asked for, whatever its name is.
+		if info.IsDir() && path != "." && skipdir.ShouldSkip(absPath) {
 			return filepath.SkipDir
 		}
 		if !watchPattern.MatchString(absPath) {
@@ -135,6 +136,7 @@ func (w *RecursiveWatcher) loop() {
 }
 
 func (w *RecursiveWatcher) Add(dir string) error {
+	root := dir
 	return filepath.WalkDir(dir, func(dir string, info os.DirEntry, err error) error {
 		if err != nil {
 			return nil
@@ -142,7 +144,7 @@ func (w *RecursiveWatcher) Add(dir string) error {
 		if !info.IsDir() {
 			return nil
 		}
-		if skipdir.ShouldSkip(dir) {
+		if dir != root && skipdir.ShouldSkip(dir) {
 			return filepath.SkipDir
 		}
 		return w.w.Add(dir)
